@@ -189,6 +189,10 @@ func (p c02) Gen(r *simhook.Rand, tier string, idx int) harness.Scenario {
 		}
 		sc.Conns = append(sc.Conns, ConnScript{Name: "wide", Reqs: []world.Request{{Args: a}}})
 		sc.Faults = nil
+		if r.Chance(1, 2) {
+			// a backend writer that rarely gets a turn: the queue in front of it is never empty when it looks
+			sc.Strategy, sc.StarveRole, sc.Dense, sc.KeepStrategy = "starve", "(*client).Start#go1", false, true
+		}
 		return sc
 	}
 	if r.Chance(1, 12) {
